@@ -191,6 +191,9 @@ func TestPropC02(t *testing.T) {
 		if g.Stats["closed_lam_applied"] > 0 {
 			classes = append(classes, "closure_without_captures_applied_to_constants")
 		}
+		if g.Stats["host_call_as_one_operand"] > 0 {
+			classes = append(classes, "host_call_as_one_operand_of_an_operator")
+		}
 		if g.Stats["host_call_in_case_label"] > 0 {
 			classes = append(classes, "host_call_in_a_case_label")
 		}
